@@ -9,19 +9,32 @@
 (*          back as a trace line that TLC validates with that relation.    *)
 (*   Kind = "loc":  the heights LocatorEntries must list for a tip height. *)
 (*   Kind = "skip": GetSkipHeight (an internal: compared as a deviation).  *)
+(*   Kind = "tall": size boundaries instead of small trees: tip heights    *)
+(*          2^k + 8 .. 2^k + 11 for k = 1..22 (where the locator gains an  *)
+(*          entry) and a few beyond; the locator heights, the skip height  *)
+(*          and GetAncestor query heights.  On a linear chain the answers  *)
+(*          depend on the height alone, so the harness builds ONE chain of *)
+(*          millions of plain CBlockIndex entries and compares there.      *)
 (***************************************************************************)
 EXTENDS ChainIndex, VF
 CONSTANTS Kinds, HMax
 Heights == (0..HMax) \cup (IF HMax >= 400 THEN {1023, 1024, 1025, 2047, 2048, 2049, 3000, 4095, 4096, 4097, 4999, 5000} ELSE {})
+CONSTANT TallExtra       \* further tall tip heights (beyond 2^22 + 11)
 VARIABLES k, x
 tvars == <<k, x, vars>>
 Exps == {0, 1, 2, 3, 4, 5, 16, 27, 29, 30, 31, 32, 33, 34, 35, 36, 128, 255}
 \* mantissa boundaries as <<b2 without sign, b1, b0>>
 Mants == {<<0, 0, 0>>, <<0, 0, 1>>, <<0, 0, 255>>, <<0, 1, 0>>, <<0, 255, 255>>, <<1, 0, 0>>, <<127, 255, 255>>, <<0, 128, 0>>,
           <<18, 52, 86>>, <<64, 0, 0>>}
+RECURSIVE P2(_)
+P2(n) == IF n = 0 THEN 1 ELSE 2 * P2(n - 1)
+TallHeights == {P2(e) + d : e \in 1..22, d \in 8..11} \cup TallExtra
+\* number of locator entries for a tip at height h > 11: 11 dense entries + genesis + one per doubling step = 11 + ceil(log2(h - 9))
+RECURSIVE CeilLog2(_)
+CeilLog2(n) == IF n <= 1 THEN 0 ELSE 1 + CeilLog2((n + 1) \div 2)
 BitsDomain == {<<e, m[1] + s, m[2], m[3]>> : e \in Exps, m \in Mants, s \in {0, 128}}
 TInit == /\ k \in Kinds /\ Empty(TRUE)
-         /\ x \in (IF k = "bits" THEN BitsDomain ELSE IF k = "loc" THEN Heights ELSE 0..(2 * HMax))
+         /\ x \in (IF k = "bits" THEN BitsDomain ELSE IF k = "loc" THEN Heights ELSE IF k = "tall" THEN TallHeights ELSE 0..(2 * HMax))
 TNext == UNCHANGED tvars
 \* SetCompact's overflow / negative flags as the code computes them, against the numeric reading of the specification
 CodeWord(bits) == IF BExp(bits) <= 3 THEN SmallTarget(bits) ELSE BMant(bits)
@@ -32,10 +45,17 @@ FlagsAreNumeric == k = "bits" =>
   /\ (CodeNegative(x) \/ CodeOverflow(x) \/ NIsZero(TargetN(x))) = ZeroClass(x)
 \* a zero proof only for the zero class: any representable positive target has 2^256 / (t + 1) >= 1
 ZeroOnlyForZeroClass == k = "bits" => (ProofOK(x, NZero) = ZeroClass(x))
-LocatorHeightsShape == k = "loc" => LocatorShape(x, LocatorHeights(x))
-LocatorIsShort == k = "loc" => Len(LocatorHeights(x)) <= 12 + 31
+LocatorHeightsShape == k \in {"loc", "tall"} => LocatorShape(x, LocatorHeights(x))
+LocatorIsShort == k \in {"loc", "tall"} => Len(LocatorHeights(x)) <= 12 + 31
+\* the locator grows by one entry at every 2^k + 10: there is no fixed small capacity that holds every locator
+LocatorLength == k = "tall" /\ x > 11 => Len(LocatorHeights(x)) = 11 + CeilLog2(x - 9)
+\* heights at which the harness asks GetAncestor of the tall tip: every locator height, the skip height, neighbours, out of range
+TallQueries(h) == {LocatorHeights(h)[i] : i \in 1..Len(LocatorHeights(h))} \cup {SkipHeight(h), h - 1, h \div 2, 1, 0, -1, h + 1}
 SkipIsLower == k = "skip" => (x >= 1 => SkipHeight(x) < x) /\ SkipHeight(x) >= 0
 EmitRow == IF k = "bits" THEN VFRow([kind |-> "bits", bits |-> x, zero |-> ZeroClass(x), t |-> TargetN(x)])
            ELSE IF k = "loc" THEN VFRow([kind |-> "loc", h |-> x, hs |-> LocatorHeights(x)])
+           ELSE IF k = "tall" THEN VFRow([kind |-> "tall", h |-> x, hs |-> LocatorHeights(x), sh |-> SkipHeight(x),
+                                          \* GetAncestor(q) of the block at height x on a chain: the block at height q, none out of range
+                                          anc |-> {<<q, IF q < 0 \/ q > x THEN -1 ELSE q>> : q \in TallQueries(x)}])
            ELSE VFRow([kind |-> "skip", h |-> x, sh |-> SkipHeight(x)])
 ====
